@@ -374,7 +374,7 @@ func c20Wrappers(p *Prog, r *Report) {
 		r.Check(ok, "C20.R3", "utils.(*ProxyWriter).Header: the wrapped writer's header map", p.FuncPos(m), "return p.w.Header()", "Header does not return the wrapped writer's header map")
 	}
 	// the buffer's recorder
-	bw := p.Named("buffer", "bufferWriter")
+	bw := namedRole(p, "buffer", "bufferWriter")
 	if bw != nil {
 		for _, name := range []string{"Hijack", "CloseNotify"} {
 			checkDelegate(p, r, "C20.R3", bw, recRole(p, "responseWriter"), name)
